@@ -212,7 +212,7 @@ theorem stepCore_pool {s s' : St} {op : Op} {o : Out} (hb : PoolOK s.b)
   case setFactors x =>
     simp only [setFactors, Option.bind_eq_bind, Option.bind_eq_some_iff, req_eq_some,
       Option.pure_def, Option.some.injEq, Prod.mk.injEq] at h
-    obtain ⟨_, _, c, _, rfl, _⟩ := h
+    obtain ⟨_, _, _, _, c, _, rfl, _⟩ := h
     exact hb.of_eq rfl rfl rfl
   case collectUndistributed => exact collectUndistributed_pool hb h
   case pause =>
